@@ -227,12 +227,40 @@ def fresh_seq(st, n, elem_shape, hint, measure=None):
 
                     r = SSeq(mk_int(lf(*zi)), getter, shape.elem, psum, name=f"{base}{path}[]")
                     r.measure = shape.measure
+                    r.row_id = (f"{base}{path}", tuple(zi))  # identity of the row (see below)
                     return r
 
                 return g
 
-            def g(*idx, lf=lf, inner=inner, shape=shape):
-                return SSeq(mk_int(lf(*zs(idx))), lambda j: inner(*idx, j), shape.elem, None, name=f"{base}{path}[]")
+            # rows of records (Tup) / variant records (Union of Tups): component prefix sums of each row, for the
+            # plain-int components every alternative has -- one function per component taking the row's indices and
+            # the position, defining equation instantiated wherever an element of the row is read (as for a flat list)
+            ralts = shape.elem.cases() if isinstance(shape.elem, (S.Union, S.Tup)) else []
+            rcomps = []
+            if ralts and all(isinstance(a_, S.Tup) for a_ in ralts):
+                rcomps = [c for c in range(min(len(a_.items) for a_ in ralts)) if all(isinstance(a_.items[c], S._Int) for a_ in ralts)]
+            rfns = {c: z3.Function(f"{base}{path}[].{c}$psum", *dom, z3.IntSort(), z3.IntSort()) for c in rcomps}
+
+            def g(*idx, lf=lf, inner=inner, shape=shape, rfns=rfns):
+                def rget(j):
+                    v = inner(*idx, j)
+                    zj = zint(j)
+                    for c, f in rfns.items():
+                        cur().assume(f(*zs(idx), zj + 1) == f(*zs(idx), zj) + zint(elt_comp(v, c)))
+                    return v
+
+                row = SSeq(mk_int(lf(*zs(idx))), rget if rfns else (lambda j: inner(*idx, j)), shape.elem, None, name=f"{base}{path}[]")
+                for c, f in rfns.items():
+
+                    def cps(k, f=f):
+                        cur().assume(f(*zs(idx), z3.IntVal(0)) == 0)
+                        return mk_int(f(*zs(idx), zint(k)))
+
+                    row.cpsum[c] = cps
+                # identity of the row: (the nested list's name, the row's index terms) -- rows are immutable values, so a
+                # deterministic function of a row is a function of this identity (protocol.encode_arg)
+                row.row_id = (f"{base}{path}", tuple(zs(idx)))
+                return row
 
             return g
         if isinstance(shape, S.Union):
@@ -302,6 +330,33 @@ def fresh_seq(st, n, elem_shape, hint, measure=None):
             return mk_int(ps(zk))
 
     r = SSeq(n, getter, elem_shape, psum, name=base)
+    if isinstance(elem_shape, S.Union):
+        # variant records (e.g. layout segments (cols, offs) | (cols, offs, end)): component prefix sums for the
+        # plain-int components that EVERY alternative has at the same position -- same model field as for Tup
+        # elements below, the summand being the non-forking selection `elt_comp` over the alternatives
+        alts = elem_shape.cases()
+        comps = []
+        if alts and all(isinstance(a_, S.Tup) for a_ in alts):
+            comps = [c for c in range(min(len(a_.items) for a_ in alts)) if all(isinstance(a_.items[c], S._Int) for a_ in alts)]
+        if comps:
+            fns = {c: z3.Function(f"{base}.{c}$psum", z3.IntSort(), z3.IntSort()) for c in comps}
+            var_get = getter
+
+            def getter(i, fns=fns, var_get=var_get):  # noqa: F811
+                v = var_get(i)
+                zi = zint(i)
+                for c, f in fns.items():
+                    cur().assume(f(zi + 1) == f(zi) + zint(elt_comp(v, c)))
+                return v
+
+            r.getter = getter
+            for c, f in fns.items():
+
+                def cps(k, f=f):
+                    cur().assume(f(z3.IntVal(0)) == 0)
+                    return mk_int(f(zint(k)))
+
+                r.cpsum[c] = cps
     if isinstance(elem_shape, S.Tup):
         # component prefix sums for the plain-int components of a tuple element (e.g. the run lengths of a
         # run-length list [(attr, run), ...]): one uninterpreted function per component, defining equation
@@ -377,21 +432,46 @@ def _tuple_expand(items):
     return ex
 
 
+def elt_comp(x, c):
+    """Component c of a sequence element that is a tuple, or a variant value (SCases) every alternative of which is
+    a tuple with an int-like component c (variant records sharing their leading fields, e.g. the layout segments
+    (cols, offs) | (cols, offs, end) | (cols, offs, bytes)): a non-forking if-then-else over the alternatives.
+    None when the element has no int-like component c.  (CPython: `x[c]` of whichever tuple x is.)"""
+    def intlike(v):
+        return V.is_num(v) and not isinstance(v, (bool, SBool))
+
+    if isinstance(x, tuple):
+        return x[c] if c < len(x) and intlike(x[c]) else None
+    if isinstance(x, V.SCases):
+        vals = [elt_comp(v, c) for _g, v in x.cases]
+        if not vals or any(v is None for v in vals):
+            return None
+        r = vals[-1]
+        for (g, _v), val in zip(reversed(x.cases[:-1]), reversed(vals[:-1])):
+            r = ite(mk_bool(g), val, r)
+        return r
+    return None
+
+
 def _tuple_cpsum(items):
-    """Component prefix sums of a concrete tuple of equal-arity tuples (int-like components only)."""
+    """Component prefix sums of a concrete tuple of tuples (int-like components only).  Items may differ in arity
+    and may be variant values (SCases): component c is summed when every item has an int-like component c."""
     out = {}
-    if not items or not all(isinstance(x, tuple) for x in items):
+    if not items or not all(isinstance(x, (tuple, V.SCases)) for x in items):
         return out
-    ar = len(items[0])
-    if any(len(x) != ar for x in items):
-        return out
+    def arity(x):
+        if isinstance(x, tuple):
+            return len(x)
+        return min(len(v) for _g, v in x.cases) if all(isinstance(v, tuple) for _g, v in x.cases) else 0
+
+    ar = min(arity(x) for x in items)
     for c in range(ar):
-        if all(V.is_num(x[c]) and not isinstance(x[c], (bool, SBool)) for x in items):
+        if all(elt_comp(x, c) is not None for x in items):
 
             def cps(k, c=c, items=items):
                 acc = [0]
                 for x in items:
-                    acc.append(acc[-1] + x[c])
+                    acc.append(acc[-1] + elt_comp(x, c))
                 if isinstance(k, int):
                     return acc[max(0, min(k, len(items)))]
                 r = acc[-1]
@@ -659,10 +739,10 @@ def seq_update(s, k, v):
             return ite(j <= k, old.psum(j), old.psum(j) + nv - ov)
 
     r = SSeq(s.length, getter, s.shape, psum, "upd")
-    if isinstance(v, tuple):
+    if isinstance(v, (tuple, V.SCases)):
         for c, f in old.cpsum.items():
-            if c < len(v) and V.is_num(v[c]):
-                r.cpsum[c] = lambda j, f=f, c=c: ite(j <= k, f(j), f(j) + v[c] - old.get(k)[c])
+            if elt_comp(v, c) is not None:
+                r.cpsum[c] = lambda j, f=f, c=c: ite(j <= k, f(j), f(j) + elt_comp(v, c) - elt_comp(old.get(k), c))
         if old.expand is not None and 1 in r.cpsum and len(v) == 2:
             def ex(p):
                 lo = old.cpsum[1](k)
